@@ -5,9 +5,9 @@
    quantifier over SHEETS is discharged per generated sheet by running the checker between
    RowSem(sheet) and the implementation's output (translation validation). *)
 From Coq Require Import List NArith Bool.
-From RPFT Require Import Base.Sexp Base.SexpEq Base.Result Gen.Tables Flow.Lts Flow.Flow Flow.FlowFacts Flow.RowSem
+From RPFT Require Import Base.Sexp Base.SexpEq Base.PyStr Base.Result Gen.Tables Flow.Lts Flow.Flow Flow.FlowFacts Flow.RowSem
      Comp.Compile Comp.CompileExamples Comp.CompileExampleFacts Comp.Refine Comp.RefineStep Comp.RefineFinal Comp.RefineFrag Comp.RefineExamples
-     Comp.RefineRefuted Comp.RefineSheet.
+     Comp.RefineRefuted Comp.RefineSheet Comp.CompileNames.
 Import ListNotations.
 
 (* the checker is sound for any label-matching relation (used with wildcard matching on
@@ -200,3 +200,56 @@ Print Assumptions C02_refines_outcome_nonvacuous.
 Example C02_refines_exits_nonvacuous : refines_ex ex_exits 3 3.
 Proof. exact refines_ex_exits. Qed.
 Print Assumptions C02_refines_exits_nonvacuous.
+
+(* ------------------------------------------------------------------------------------------------------------
+   The names the tool INVENTS against the names that are taken (strengthening after wave 4; Comp/CompileNames.v).
+   The statements hold for EVERY state of the router: whatever edges were applied before and in whatever order,
+   whatever the sheet called its own categories ("Other", "No Response", "Yes_alt", ...). *)
+
+(* generate_category_name always returns a name, and the name of no category of the router (ordinary categories,
+   default category, No Response category: `names` is the list add_choice passes, get_categories()) *)
+Theorem C02_generated_name_is_not_taken : forall names args,
+  exists nm, gen_cat_name names args = Ok nm /\ Flow.Closed.memb nm names = false.
+Proof. exact gen_cat_name_fresh. Qed.
+Print Assumptions C02_generated_name_is_not_taken.
+
+(* a test the sheet leaves unnamed, when it is not a re-targeting of a test the router has, gets a category of its
+   own: one category (uuid = the next draw, exit = where the edge leads, a name no category of the router had) and one
+   case pointing to it are appended; the other categories, the default category and the wait with its No Response
+   category are what they were - in particular the test does not take over the default branch (seed C02-w4) *)
+Theorem C02_unnamed_test_gets_own_category : forall (fresh : nat -> id) n (r : cswitch) variable ty args d r' n',
+  find (fun k => str_eqb (ck_type k) ty && ostr_list_eqb (ck_args k) args) (sw_cases r) = None ->
+  sw_add_choice fresh n r variable ty args [] d false = Ok (r', n') ->
+  exists c k,
+    sw_cats r' = sw_cats r ++ [c] /\ sw_cases r' = sw_cases r ++ [k] /\
+    sw_default r' = sw_default r /\ sw_wait r' = sw_wait r /\
+    cc_uuid c = fresh n /\ ck_cat k = cc_uuid c /\ cat_dest c = d /\
+    Flow.Closed.memb (cc_name c) (map cc_name (sw_all_cats r)) = false.
+Proof. exact add_choice_unnamed_own_category. Qed.
+Print Assumptions C02_unnamed_test_gets_own_category.
+
+Example C02_unnamed_test_nonvacuous :
+  match sw_add_choice wfresh 6 ex_switch_other [] s_has_any_word [Some [111;116;104;101;114]%N] [] (Some [67%N]) false with
+  | Ok (r', _) => map cc_name (sw_all_cats r') = [s_Other ++ s_alt; s_Other ++ s_alt ++ s_alt; s_Other; s_NoResponse]
+                  /\ map cat_dest (sw_all_cats r') = [Some [65%N]; Some [67%N]; Some [66%N]; None]
+  | Err _ => False
+  end.
+Proof. exact add_choice_unnamed_nonvacuous. Qed.
+Print Assumptions C02_unnamed_test_nonvacuous.
+
+(* RandomRouter.add_choice: a bucket the sheet leaves unnamed is a NEW bucket when no bucket is called
+   "Bucket <number of buckets + 2>" ... *)
+Theorem C02_unnamed_bucket_gets_own_category_partial : forall (fresh : nat -> id) n (r : crandom) d r' n',
+  existsb (name_is (bucket_auto_name r)) (rr_cats r) = false ->
+  rr_add_choice fresh n r [] d = Ok (r', n') ->
+  exists c, rr_cats r' = rr_cats r ++ [c] /\ cc_uuid c = fresh n /\ cat_dest c = d /\ cc_name c = bucket_auto_name r.
+Proof. exact rr_unnamed_bucket_own_category. Qed.
+Print Assumptions C02_unnamed_bucket_gets_own_category_partial.
+
+(* ... and the statement without that premise is false of the faithful model (split_random; "Bucket 3" -> A;
+   (blank) -> B: one bucket, leading to B) - replayed on the implementation: finding bucket-name-clash *)
+Theorem C02_unnamed_bucket_gets_own_category_refuted :
+  ~ (forall fresh n (r : crandom) d r' n',
+        rr_add_choice fresh n r [] d = Ok (r', n') -> exists c, rr_cats r' = rr_cats r ++ [c] /\ cat_dest c = d).
+Proof. exact rr_unnamed_bucket_refuted. Qed.
+Print Assumptions C02_unnamed_bucket_gets_own_category_refuted.
